@@ -281,5 +281,7 @@ func silence() {
 		return
 	}
 	restful.SetLogger(log.New(ioutil.Discard, "", 0))
+	restful.TraceLogger(log.New(ioutil.Discard, "", 0)) // the trace logger captured the package logger at init
+	restful.EnableTracing(false)
 	log.SetOutput(ioutil.Discard)
 }
